@@ -33,6 +33,8 @@ func runC22(c *eng.Ctx) {
 			"weed/util/log_buffer.NewLogBuffer": "constructor: the value is not shared yet",
 		},
 	})
+	c.CheckLockPairs("PAIR-logbuffer", "weed/util/log_buffer", "LogBuffer.RWMutex", nil)
+	c.Expect("PAIR-logbuffer", 4)
 	c.Expect("LOCK-logbuffer", 4)
 
 	// ---------------------------------------------------------------- (2) MONO-ts
